@@ -84,7 +84,16 @@ func StyleAttr(r *rand.Rand, known []StyleDecl, clean bool) string {
 		case 2:
 			prop = mixCase(r, prop)
 		}
-		switch r.Intn(11) {
+		switch r.Intn(12) {
+		case 11:
+			// white space that only exists after escape decoding, at the edges of the value: part of the
+			// value for a browser, invisible to a matcher that trims
+			esc := Pick(r, []string{"\\20 ", "\\9 ", "\\a ", "\\a0 ", "\\3000 ", "\\b ", "\\2003 ", "\\d ", "\\c "})
+			if r.Intn(2) == 0 {
+				val = val + esc
+			} else {
+				val = esc + val
+			}
 		case 10:
 			// decoder probe: the last character written as an escape, one terminator, then one junk
 			// character. A browser reads VALUE+junk; a decoder that eats one character too many reads VALUE.
